@@ -18,7 +18,7 @@ META = {
         '_synsets_for_pos merges a and s symmetrically; R4 no hash-seed-ordered value is returned or order-selected in '
         'taxonomy.py (C16 analysis restricted to this module); R5 definitional anchors: roots/leaves test hypernyms()/hyponyms() '
         'emptiness, paths are built over exactly (hypernym, instance_hypernym), ancestor sets include the synset itself, '
-        'min/max depth default to 0, shortest_path raises wn.Error when nothing is shared and drops the start synset. R6 the simulated root is constructed with constants in every field Synset.__hash__ reads. R7 every synset a relation step constructs carries the Wordnet it was reached from (C04-R7).'),
+        'min/max depth default to 0, shortest_path raises wn.Error when nothing is shared and drops the start synset. R6 the simulated root is constructed with constants in every field Synset.__hash__ reads. R7 every synset a relation step constructs carries the Wordnet it was reached from (C04-R7). R8 the first hop of relation_paths leaves out a relation of the start synset to itself.'),
     'decides': ['termination', 'simulate_root forwarding', 'a/s merge symmetry', 'order determinism', 'definitional anchors'],
     'not_decided': ['equality with graph-theoretic definitions for all digraphs (value level)'],
     'assumptions': [],
